@@ -63,3 +63,9 @@ func VerifPlannerWithSelector(ctx context.Context, executors map[string]Executor
 	}
 	return planner, introspection.BareIntrospectionSchema(types.Schema), nil
 }
+
+// VerifPlan exposes the planner's plan for a query (build tag verif only), so that the verification
+// harness can compare it with the plan the specification's planner model makes.
+func VerifPlan(p *Planner, q *graphql.Query) (*Plan, error) {
+	return p.planRoot(q)
+}
